@@ -20,6 +20,8 @@ Report(e, s1) ==
     /\ \A i \in 1..Len(s1.notes) :
           PrintT(ToJson([tag |-> "NOTE", pg |-> PgOf(e, s1), n |-> NOf(e), clause |-> s1.notes[i].clause,
                          arg |-> s1.notes[i].arg]))
+    /\ e.k = "endrun" =>    \* how many distinct (page, href) type-reference hyperlinks the link clause judged in this run
+          PrintT(ToJson([tag |-> "LINKS", pg |-> 0, run |-> e.run, judged |-> Cardinality({<<lk.from, lk.href>> : lk \in s1.links})]))
     /\ \A r \in s1.lrej :
           PrintT(ToJson([tag |-> "REJECT", pg |-> r.link.pg, n |-> 0, clause |-> "html.link", detail |-> r.why,
                          href |-> r.link.href, refs |-> r.link.refs, to |-> r.to, inspan |-> r.link.inspan, k |-> "endrun"]))
@@ -29,7 +31,7 @@ TNext == /\ l <= Len(Trace)
          /\ LET e  == Trace[l]
                 s1 == Step(st, e)
             IN /\ st' = s1
-               /\ IF s1.rej = <<>> /\ s1.notes = <<>> /\ s1.lrej = {} THEN TRUE ELSE Report(e, s1)
+               /\ IF s1.rej = <<>> /\ s1.notes = <<>> /\ s1.lrej = {} /\ e.k # "endrun" THEN TRUE ELSE Report(e, s1)
          /\ l' = l + 1
          /\ UNCHANGED <<toks, seen>>
 TSpec == TInit /\ [][TNext]_<<l, st, toks, seen>>
